@@ -19,7 +19,11 @@ MsgsOf(NF, ML) == {[ck |-> c, S |-> 2, fs |-> fs] : c \in BOOLEAN,
 Repr == {<<"buf", 2>>, <<"abuf", 1>>, <<"str", 0>>, <<"str", 2>>, <<"arr", 2, 2>>, <<"fbuf", 2, 2>>, <<"iov", <<1, 1>>>>,
          <<"aiov", <<0, 2>>>>, <<"msg", <<<<"abuf", 2>>, <<"str", 2>>>>>>, <<"msg", <<<<"buf", 0>>, <<"aiov", <<1>>>>>>>>,
          <<"arrm", 2, <<Elem(0), Elem(2)>>>>, <<"map", 2, 6, << <<3, 1, 4, 2>>, <<0, 1, 1, 2>> >>>>}
-MsgsQuick == MsgsOf(1, 2) \cup {[ck |-> c, S |-> 2, fs |-> <<a, b>>] : c \in BOOLEAN, a \in Repr, b \in Repr \ MapOpts}
+Repr2 == {<<"buf", 2>>, <<"abuf", 1>>, <<"str", 0>>, <<"fbuf", 2, 2>>, <<"iov", <<1, 1>>>>, <<"aiov", <<0, 2>>>>,
+          <<"msg", <<<<"abuf", 2>>, <<"str", 2>>>>>>, <<"arrm", 2, <<Elem(0), Elem(2)>>>>, <<"map", 2, 6, << <<3, 1, 4, 2>>, <<0, 1, 1, 2>> >>>>}
+MsgsQuick == MsgsOf(1, 2) \cup {[ck |-> c, S |-> 2, fs |-> <<a, b>>] : c \in BOOLEAN, a \in Repr2, b \in Repr2 \ MapOpts}
 MsgsThorough == MsgsOf(2, 2) \cup {[ck |-> c, S |-> 2, fs |-> <<a, b, d>>] : c \in BOOLEAN, a \in Repr, b \in Repr \ MapOpts, d \in Repr \ MapOpts}
+\* the known-finding configurations only need a witness
+MsgsKF == {[ck |-> c, S |-> 2, fs |-> <<a>>] : c \in BOOLEAN, a \in Repr}
 ModesAll == {"honest", "hostile", "hostileSL", "altered", "short"}
 ====
